@@ -5,9 +5,11 @@ import time
 
 from . import common as C
 
-ALL_LISTS = ["P1", "P2", "P3", "P4", "P5", "P6", "P7", "F1", "F2", "F3", "F4", "F5", "F6", "F7", "F8", "V1", "V2", "V3", "V4", "V5", "V6", "V7",
-             "V8", "V9", "V10", "V11", "M1", "M2", "M3"]
-TRACKED = ["P3", "P4", "P5", "F3", "F4", "F5", "F6", "V3", "V4", "V7", "V9", "V10", "M2", "M3"]
+ALL_LISTS = ["P1", "P2", "P3", "P4", "P5", "P6", "P7", "P8", "P9", "F1", "F2", "F3", "F4", "F5", "F6", "F7", "F8", "F9", "V1", "V2", "V3", "V4", "V5", "V6", "V7",
+             "V8", "V9", "V10", "V11", "V12", "M1", "M2", "M3"]
+TRACKED = ["P3", "P4", "P5", "P8", "F3", "F4", "F5", "F6", "F9", "V3", "V4", "V7", "V9", "V10", "V12", "M2", "M3"]
+# lists of trivial value types for the "never clobbered alive" clause of C06 (observable through the values only)
+C06_TRIVIAL = ["P1", "F1", "V1", "V2", "V5", "M1"]
 ALIGNED = ["P2", "P6", "F2", "F7", "V1", "V3", "V5", "V6", "V7", "V8", "V9", "M1"]
 VARYING = ["V1", "V2", "V3", "V4", "V5", "V6", "V7", "V8", "V9", "M1", "M2", "M3"]
 TRAIT_KINDS = ["T000", "T001", "T010", "T011", "T100", "T101", "T110", "T111"]
@@ -104,11 +106,12 @@ def spec(prop, tier):
         if q:
             primary = ["P3", "F3", "V3", "V4", "M2"]
             return hist_runs(primary, tier, depth=7) + [R(l, "AE", "hist", depth=6, junk=1) for l in TRACKED if l not in primary] + \
+                [R(l, "AE", "hist", depth=6, junk=1) for l in C06_TRIVIAL] + \
                 big_runs(["F3", "V3", "V9", "M2"], tier, depth=5) + \
                 pair_runs(["F3", "V3"], ["AE", "NP"], tier, 5) + pair_runs(["P3", "P5", "F4", "F6", "V7", "V10", "M2", "M3"], ["NP"], tier, 4) + \
                 elem_runs(["F3", "V3"], ["NP"], tier, 3) + elem_runs(["P5", "F4", "F6", "V10", "M2", "V7"], ["NP"], tier, 2)
-        return hist_runs(TRACKED, tier, allocs=("AE",), nmax=4, cmax=3, bmax=6, depth=6) + \
-            pair_runs(TRACKED, ["AE", "NP", "PP"], tier, 5) + elem_runs(TRACKED, ["AE", "NP", "PP"], tier, 3)
+        return hist_runs(TRACKED + C06_TRIVIAL, tier, allocs=("AE",), nmax=4, cmax=3, bmax=6, depth=6) + \
+            pair_runs(TRACKED + C06_TRIVIAL, ["AE", "NP", "PP"], tier, 5) + elem_runs(TRACKED, ["AE", "NP", "PP"], tier, 3)
     if prop == "C07":
         if q:
             return pair_runs(["F1", "F3", "V1", "V3"], ["AE", "NP", "PP"], tier, 5) + \
@@ -126,7 +129,7 @@ def spec(prop, tier):
     if prop == "C09":
         if q:
             return pair_runs(["P1", "F1", "F3", "V1", "V3"], ["AE", "NP"], tier, 5) + \
-                pair_runs(["P3", "F2", "F4", "V2", "V5", "V7", "M1", "M2"], ["AE", "NP"], tier, 4)
+                pair_runs(["P3", "F2", "F4", "V2", "V5", "V7", "M1", "M2", "P8", "P9", "F9", "V12"], ["AE", "NP"], tier, 4)
         return pair_runs(ALL_LISTS, ["AE", "NP", "PP"], tier, 5, nmax=3)
     if prop == "C10":
         if q:
